@@ -4,7 +4,10 @@
 
 package syntax
 
-import "fmt"
+import (
+	"fmt"
+	"sort"
+)
 
 // Kinds of value or reference expressions.  These include all of
 // the builtin types as well as "array" and "null", and for references
@@ -191,9 +194,16 @@ func (s *ArrayExp) getSubnodes() []AstNodable {
 }
 
 func (s *MapExp) getSubnodes() []AstNodable {
-	subs := make([]AstNodable, 0, len(s.Value))
-	for _, n := range s.Value {
-		subs = append(subs, n)
+	// In key order, so that which of several entries on one source line
+	// a comment gets attached to does not depend on map iteration order.
+	keys := make([]string, 0, len(s.Value))
+	for k := range s.Value {
+		keys = append(keys, k)
+	}
+	sort.Strings(keys)
+	subs := make([]AstNodable, 0, len(keys))
+	for _, k := range keys {
+		subs = append(subs, s.Value[k])
 	}
 	return subs
 }
